@@ -357,13 +357,57 @@ def run(ctx):
                         for i, o in enumerate(rv[2]):
                             if i < len(names) and names[i] in ("next_stream_id", "next_object_id", "next_id") and o[0] == "k" and isinstance(o[2], int) and o[2] > 1:
                                 seeds.append((fn, b, names[i], o[2]))
+    # a constant-seeded counter is harmless when the ids it hands out are placeholders: nothing outside its own module
+    # reads them back (the consumer overwrites the id from the writer's allocator before using it)
+    live_seeds = []
+    for fn, b, field, val in seeds:
+        mod = (fn.parent or fn.id).rsplit("::", 2)[0]
+        adt_fields = set()
+        for an, a in facts.adts.items():
+            if an.startswith(mod + "::") and a.get("variants"):
+                for f in a["variants"][0]["fields"]:
+                    if f[1].endswith("ObjectId") or f[1] == "u32":
+                        adt_fields.add((an, f[0]))
+        readers = []
+        alloc_overwrites = []
+        for f2 in facts.fns.values():
+            owner2 = f2.parent or f2.id
+            if owner2.startswith(mod + "::") or owner2.startswith("<" + mod + "::"):
+                continue
+            for b2, blk in enumerate(f2.blocks):
+                for st in blk[0]:
+                    for o in FL.rvalue_operands(st[2]):
+                        pl = FL.op_place(o)
+                        if pl and pl[1] and isinstance(pl[1][-1], list) and pl[1][-1][0] == "f" and pl[1][-1][2] == "stream_id" \
+                                and mod.split("::")[-1] in f2.locals[pl[0]]:
+                            readers.append(f2.where(b2))
+                    pl = st[1]
+                    if pl[1] and isinstance(pl[1][-1], list) and pl[1][-1][0] == "f" and pl[1][-1][2] == "stream_id" \
+                            and mod.split("::")[-1] in f2.locals[pl[0]]:
+                        srcs = L.slice_calls(f2, [l for o in FL.rvalue_operands(st[2]) for l in FL.op_locals(o)])
+                        if any(L.is_call_to(cc, ["allocate_object_id"]) for _, cc in srcs):
+                            alloc_overwrites.append(f2.where(b2))
+                t2 = blk[1]
+                if t2[0] == "call":
+                    for o in t2[2]:
+                        pl = FL.op_place(o)
+                        if pl and pl[1] and isinstance(pl[1][-1], list) and pl[1][-1][0] == "f" and pl[1][-1][2] == "stream_id" \
+                                and mod.split("::")[-1] in f2.locals[pl[0]]:
+                            readers.append(f2.where(b2))
+        if field == "next_stream_id" and alloc_overwrites and not readers:
+            ctx.ok("R5", "allocator-seed:%s.%s" % (L.short(fn.parent or fn.id), field), "placeholder ids: the consumer overwrites "
+                   "stream_id from allocate_object_id (%s) and never reads the seeded value" % alloc_overwrites[0], fn.where(b))
+        else:
+            live_seeds.append((fn, b, field, val))
+    seeds_found = len(seeds)
+    seeds = live_seeds
     if seeds:
         for fn, b, field, val in seeds:
             ctx.violation("R5", "allocator-seed:%s.%s" % (L.short(fn.parent or fn.id), field), "a second object-number counter `%s` is "
                           "seeded with the constant %d instead of the writer's allocator: its numbers collide with ordinary objects "
                           "once a document reaches that many objects, and until then force a cross-reference section of that size"
                           % (field, val), fn.where(b))
-    else:
+    elif not seeds_found:
         ctx.ok("R5", "allocator-seeds", "no constant-seeded second counter in writer::")
     # R6 tokens
     readers = C09.check_readers(ctx)
